@@ -242,6 +242,8 @@ def gen_cases(chk):
               [["a", {"t": "np", "k": "b", "w": "bool", "b": 1}]]):
         cases.append({"tree": {"t": "dict", "v": t}, "fmt": ["json", "h5"], "expect": {"json": None, "h5": None},
                       "stream": "observed-only"})
+    # save_results(<dir>/<stem>[.<ext>], extension=<arg>): every spelling x argument, and directories that are
+    # empty, plain, relative ("./x"), hidden, nested and / or contain dots ("run_v1.2", "a.b/c")
     ext = []
     for stem in ("result", "a.b"):
         for e in ("", "json", "hdf5", "h5", "txt", "JSON", "pkl"):
@@ -249,7 +251,14 @@ def gen_cases(chk):
                 if stem == "a.b" and e == "":
                     continue      # "a.b" without extension is not a decomposition os.path.splitext produces
                 if stem == "a.b" and not quick or stem == "result":
-                    ext.append({"stem": stem, "ext": e, "arg": arg})
+                    ext.append({"dir": "", "stem": stem, "ext": e, "arg": arg})
+    dirs = ["plain", "./x", "run_v1.2", "a.b/c", ".hidden", "./up.down/v0.1", "x.json", "deep/er.h5/z"]
+    for d in dirs:
+        for e, arg in (("", "json"), ("", "hdf5"), ("", "h5"), ("json", None), ("hdf5", None), ("h5", None),
+                       ("", None), ("h5", "json"), ("", "txt")):
+            if quick and d in ("plain", "deep/er.h5/z") and (e, arg) not in (("", "h5"), ("json", None)):
+                continue
+            ext.append({"dir": d, "stem": "result", "ext": e, "arg": arg})
     return cases, ext
 
 
@@ -422,6 +431,34 @@ def judge_gen(c, r):
     return bad
 
 
+def ext_expected(c):
+    """-> (rejected?, file that must exist relative to the working directory, writer)"""
+    eff = c["arg"] if c["arg"] is not None else c["ext"]
+    if eff not in ("json", "hdf5", "h5"):
+        return True, None, None
+    d = c.get("dir", "")
+    fname = os.path.normpath((d + "/" if d else "") + c["stem"] + "." + (c["ext"] or c["arg"]))
+    return False, fname, "json" if eff == "json" else "hdf5"
+
+
+def judge_ext(c, r):
+    """direct predicate: the file named <dir>/<stem>.<requested extension> exists, is the only file written,
+    is in the requested format and holds the results"""
+    rejected, fname, writer = ext_expected(c)
+    where = "dotted-dir" if "." in c.get("dir", "") else "plain-dir"
+    if rejected != ("err" in r):
+        return [(f"C19:extension:{where}:accept-reject", f"save_results({r.get('passed')!r}, extension={c['arg']!r}) -> {r}")]
+    if rejected:
+        return [] if not r.get("files") else [(f"C19:extension:{where}:file-left-behind", f"{c} -> {r}")]
+    if r.get("files") != [fname]:
+        return [(f"C19:extension:{where}:result-file-missing",
+                 f"save_results({r.get('passed')!r}, extension={c['arg']!r}): expected file {fname!r} does not exist; "
+                 f"written: {r.get('files')}")]
+    if r.get("writer") != writer or not r.get("content_ok"):
+        return [(f"C19:extension:{where}:wrong-format-or-content", f"{c} -> {r}, expected a {writer} file")]
+    return []
+
+
 def judge_run(which, r):
     bad = []
     if not r.get("config_loads"):
@@ -502,15 +539,11 @@ def run(chk):
     for c, r in zip(ext, rext):
         chk.evaluations += 1
         chk.count("ext:" + ("error" if "err" in r else r.get("writer", "?")))
-        want_err = (c["arg"] if c["arg"] is not None else c["ext"]) not in ("json", "hdf5", "h5")
-        eff = c["arg"] if c["arg"] is not None else c["ext"]
-        if want_err != ("err" in r):
-            chk.fail("C19:extension:accept-reject", f"save_results({c}) -> {r}", {"kind": "ext", "case": c, "observed": r})
-        elif not want_err:
-            fname = c["stem"] + "." + (c["ext"] or c["arg"])
-            if r.get("files") != [fname] or r.get("writer") != ("json" if eff == "json" else "hdf5"):
-                chk.fail("C19:extension:wrong-writer-or-file", f"save_results({c}) -> {r}, expected {fname}",
-                         {"kind": "ext", "case": c, "observed": r})
+        chk.count("ext:dir:" + ("none" if not c.get("dir") else "dotted" if "." in c["dir"].replace("./", "").replace("../", "") or c["dir"].startswith(".h") else "relative-or-plain"))
+        if c.get("dir") and "." in c["dir"]:
+            chk.nontriv(("ext", json.dumps(c)))
+        for key, what in judge_ext(c, r):
+            chk.fail(key, what, {"kind": "ext", "case": c, "observed": r})
     runs = {}
     for which in ("std", "ins"):
         r = res.get(which)
@@ -518,7 +551,8 @@ def run(chk):
             continue
         r = r["sampler"]
         runs[which] = r
-        chk.evaluations += 3 + 2
+        chk.evaluations += 5 + 2
+        chk.notes.append(f"{which} run output directory: {r.get('output')}")
         chk.count("run:" + which)
         chk.nontriv(("run", which))
         if not r.get("stable", True):
@@ -568,11 +602,13 @@ def run(chk):
         elif len(r.get("files", [])) == 1 and r.get("writer") in ("json", "hdf5"):
             o = f"(Some ({'WJson' if r['writer'] == 'json' else 'WHdf5'}, {cStr(r['files'][0])}))"
         else:
-            o = f"(Some (WJson, {cStr('<' + str(r) + '>')}))"
+            o = f"(Some (WJson, {cStr('<' + str(r.get('files')) + '>')}))"
         arg = "None" if c["arg"] is None else f"(Some {cStr(c['arg'])})"
-        el.append(f"({cStr(c['stem'])}, {cStr(c['ext'])}, {arg}, {o})")
-    ok, bad, err = shard(el, "ext", "string * string * option string * option (writer * string)", "chk_ext", 500)
-    chk.oblige(f"correspondence: writer and file name chosen by FlowSampler.save_results = choose_writer ({len(el)} cases)",
+        # the model gets the normalised path ("./x/result" -> "x/result"); the real code got the raw one
+        el.append(f"({cStr(os.path.normpath(r['passed']))}, {arg}, {o})")
+    ok, bad, err = shard(el, "ext", "string * option string * option (writer * string)", "chk_ext_p", 500)
+    chk.oblige(f"correspondence: writer and file chosen by FlowSampler.save_results = choose_writer_p, for plain, "
+               f"relative, hidden, nested and dotted directories ({len(el)} cases)",
                "correspondence", ok and not bad, err + "; ".join(el[k] for k in bad[:3]))
     # the real runs: one literal per (run, file); identical read-backs (hdf5 / h5) are evaluated once; in parallel
     jobs, seen = [], {}
@@ -581,12 +617,13 @@ def run(chk):
         for label, s in r.get("saves", {}).items():
             if "err" in s:
                 obs = "None"
-            elif label == "json":
+            elif label.startswith("json"):
                 obs = f"(Some ({cJ(s['obs'])}))"
             else:
                 t = cHfile(s["obs"])
                 obs = "None" if t is None else f"(Some {t})"
             item = f"({cDict(tree['v'])}, {obs})"
+            label = label.replace("()", "").replace("-", "_")
             if (which, item) in seen:
                 jobs.append((which, label, item, seen[(which, item)]))
                 continue
@@ -597,7 +634,7 @@ def run(chk):
         which, label, item, same_as = job
         if same_as is not None:
             return None
-        if label == "json":
+        if label.startswith("json"):
             return shard([item], f"run_{which}_{label}", "list (string * tree) * option jval",
                          f"chk_result_json {lad_term}", 1)
         return shard([item], f"run_{which}_{label}", "list (string * tree) * option hfile", f"chk_h5 {h5_term}", 1)
@@ -613,7 +650,7 @@ def run(chk):
             ok, bad, err = out
             done[(which, label)] = out
             note = ""
-        chk.oblige(f"correspondence: result.{label} of the real {which} run read back = model "
+        chk.oblige(f"correspondence: result file ({label}) of the real {which} run read back = model "
                    f"({len(item) // 1024} kB literal){note}", "correspondence", ok and not bad,
                    err + ("model and file differ" if bad else ""))
         chk.traces += 1
@@ -639,9 +676,7 @@ def replay(data):
     if rp["kind"] == "run":
         bad = judge_run(rp["sampler"], out["sampler"])
     elif rp["kind"] == "ext":
-        c, o = rp["case"], out["ext"][0]
-        want_err = (c["arg"] if c["arg"] is not None else c["ext"]) not in ("json", "hdf5", "h5")
-        bad = [("C19:extension", f"{c} -> {o}")] if want_err != ("err" in o) else []
+        bad = judge_ext(rp["case"], out["ext"][0])
     else:
         bad = judge_gen(rp["case"], out["gen"][0])
     print(json.dumps({"failures": bad}, indent=1)[:3000])
